@@ -6,19 +6,23 @@ What is modelled (Go statement ↔ label of `fire`):
   session.go AsyncCall      issue (seq, callWG.Add, cmd.mu.Lock — the fresh cmd is not shared yet),
                             store (callCmdMap.Store), prewrite (preWriteCall verdict → stat),
                             write (session.write: status check → 102 sentinel, cancelled context → 104,
-                            one whole frame | error → 102/104 | Pack panic recovered by AsyncCall's
-                            deferred recover: nothing written, NO done(), nil CallCmd returned),
+                            one whole frame | error → 102/104 | request above the size limit: Pack
+                            returns the error, nothing written → 104),
                             failDone (cmd.done() on a non-OK stat), unlock (deferred cmd.mu.Unlock)
   session.go startReadAndHandle   read (ReadMessage up to bindReply's table lookup), bind
-                            (bindReply: mu.Lock — blocks while the mutex is held —, inputMeta set =
-                            hasReply; body decode; the decision `(err ≠ nil ∧ codec = 0) ∨ ¬goonRead`
-                            → leave WITHOUT handle (mutex stays locked) | ctxWG.Add + spawn handle),
+                            (bindReply: mu.Lock — blocks while the mutex is held —; a call that already
+                            has a reply or is already completed is unlocked again and the frame treated
+                            as one for an unknown seq; else inputMeta set = hasReply; body decode; the decision `(err ≠ nil ∧ codec = 0) ∨ ¬goonRead`
+                            or a decoder panic → `finishBoundReply`: handleReply runs in the reader
+                            (status 400 on an error, done(), Unlock), then the loop is left
+                            | ctxWG.Add + spawn handle),
                             readerEof (read error)
-  session.go readDisconnected     discLoad, discStore, discCtxWait todo (graceCtxWait; `todo` = the order in which Range
+  session.go readDisconnected     discLoad, discStore (CAS Ok→PassiveClosing, else load again), discCtxWait todo (graceCtxWait; `todo` = the order in which Range
                             will yield entries: ANY index list), discPick (Range yields
                             the next entry), discVisit (mu.Lock; `¬hasReply ∧ stat.OK` → cancel; Unlock),
                             discFinish (socket.Close, no redial configured, PassiveClosed)
-  context.go handleReply    hDone (stat from the reply unless already non-OK; done()), hUnlock
+  context.go handleReply    hDone (stat from the reply — its status, else 400 if its body did not decode —
+                            unless already non-OK; done()), hUnlock
                             (mu.Unlock, ctxWG.Done)
   context.go callCmd.done / cancel   `complete`: table delete, channel send (blocks on a full channel),
                             close(doneChan) (a second close panics in a pool goroutine = process crash),
@@ -27,8 +31,7 @@ What is modelled (Go statement ↔ label of `fire`):
                             (callWG.Wait; ActiveClosed; socket.Close)
 Environment labels: issue, frame (the peer sends any frame: any seq, any decode outcome), lose
 (connection lost), close (the application calls Close).
-Ghost fields (never read by `fire` for a decision): `rebound` — bindReply bound a call that already had
-a reply or was already completed; `leaked` — the reader left the read loop with a call's mutex held.
+Ghost field (never read by `fire` for a decision): `leaked` — the reader left the read loop with a call's mutex held.
 -/
 namespace Teleport.CallLife
 
@@ -36,7 +39,7 @@ namespace Teleport.CallLife
 inductive Pc | locked | stored | writing | failing | written | unlocking | returned
   deriving DecidableEq, Repr
 
-/-- who holds the per-call mutex. `reader`: locked by bindReply, no handler will ever unlock it. -/
+/-- who holds the per-call mutex. `reader`: locked by bindReply and never unlocked. -/
 inductive Mu | free | caller | reader | hPre | hPost
   deriving DecidableEq, Repr
 
@@ -86,11 +89,11 @@ structure Call where
   chanSends : Nat       -- times the call was sent on its completion channel
   inTable : Bool
   rstat : Nat           -- status carried by the bound reply
-  nilRet : Bool         -- AsyncCall returned the zero CallCmd (recovered panic)
+  rerr : Bool           -- the bound reply's body could not be decoded: `ctx.stat = 400 Bad Message`
   -- parameters fixed at issue
   veto : Bool           -- preWriteCall verdict is non-OK
   ctxDone : Bool        -- the call's context is already cancelled
-  wpanic : Bool         -- Pack panics for this request (size above the limit, jsonproto/pbproto)
+  tooBig : Bool         -- the request is above the message size limit: Pack returns the error
   bytesRes : Bool       -- result object is *[]byte (body is copied, never decoded)
   cap : Nat             -- capacity of the completion channel
   deriving DecidableEq, Repr
@@ -105,26 +108,25 @@ structure State where
   cpc : CPc
   otherH : Nat
   crashed : Bool
-  rebound : Bool
   leaked : Bool
   deriving DecidableEq, Repr
 
 /-- the call record right after `seq` allocation, `callWG.Add(1)` and `cmd.mu.Lock()`. -/
-def Call.fresh (veto ctxDone wpanic bytesRes : Bool) (cap : Nat) : Call :=
+def Call.fresh (veto ctxDone tooBig bytesRes : Bool) (cap : Nat) : Call :=
   { pc := .locked, mu := .caller, hasReply := false, stat := 0, doneCount := 0, chanSends := 0,
-    inTable := false, rstat := 0, nilRet := false, veto := veto, ctxDone := ctxDone, wpanic := wpanic,
+    inTable := false, rstat := 0, rerr := false, veto := veto, ctxDone := ctxDone, tooBig := tooBig,
     bytesRes := bytesRes, cap := cap }
 
 def State.init : State :=
   { calls := [], inq := [], lost := false, sockClosed := false, status := .ok, rpc := .reading,
-    cpc := .idle, otherH := 0, crashed := false, rebound := false, leaked := false }
+    cpc := .idle, otherH := 0, crashed := false, leaked := false }
 
 /-- outcome of `session.write` for a CALL. -/
-inductive WOut | ok | refused | ctxErr | cut | err (code : Nat) | panic
+inductive WOut | ok | refused | ctxErr | cut | err (code : Nat) | tooBig
   deriving DecidableEq, Repr
 
 inductive Label
-  | issue (veto ctxDone wpanic bytesRes : Bool) (cap : Nat)
+  | issue (veto ctxDone tooBig bytesRes : Bool) (cap : Nat)
   | frame (f : Frame)
   | lose
   | close
@@ -137,6 +139,19 @@ inductive Label
 
 def Label.internal : Label → Bool
   | .issue .. | .frame _ | .lose | .close => false
+  | _ => true
+
+/-- `handleReply`: the status the reply gives the call — the status the frame carries, else the
+    read error stored by the read loop (400), else OK. -/
+def Call.replyStat (c : Call) : Nat := if c.rstat ≠ 0 then c.rstat else if c.rerr then 400 else 0
+
+/-- a `*[]byte` result is filled by copying the body: no decoder runs. -/
+def effDec (c : Call) (dec : Dec) : Dec := if c.bytesRes then .ok else dec
+
+/-- `ReadMessage` failed after `bindReply` (decode error, codec id 0, decoder panic): the context
+    carries `400 Bad Message` with the error as cause. -/
+def Dec.isErr : Dec → Bool
+  | .ok => false
   | _ => true
 
 def Call.busyH (c : Call) : Bool := c.mu == .hPre || c.mu == .hPost
@@ -178,9 +193,9 @@ def State.spawnOther (s : State) : State :=
 def fire (s : State) (l : Label) : Option State :=
   if s.crashed then none else
   match l with
-  | .issue veto ctxDone wpanic bytesRes cap =>
+  | .issue veto ctxDone tooBig bytesRes cap =>
     if cap = 0 then none else
-    some { s with calls := s.calls ++ [Call.fresh veto ctxDone wpanic bytesRes cap] }
+    some { s with calls := s.calls ++ [Call.fresh veto ctxDone tooBig bytesRes cap] }
   | .frame f => some { s with inq := s.inq ++ [f] }
   | .lose => some { s with lost := true }
   | .close =>
@@ -207,13 +222,14 @@ def fire (s : State) (l : Label) : Option State :=
         (if o = .refused then some (s.setCall i { c with pc := .failing, stat := 102 }) else none)
       else if c.ctxDone then
         (if o = .ctxErr then some (s.setCall i { c with pc := .failing, stat := 104 }) else none)
+      else if c.tooBig then
+        (if o = .tooBig then some (s.setCall i { c with pc := .failing, stat := 104 }) else none)
       else match o with
         | .ok => some (s.setCall i { c with pc := .written })
         | .cut => some ({ s with lost := true }.setCall i { c with pc := .failing, stat := 104 })
         | .err code =>
           if (s.lost || s.sockClosed) && (code = 102 || code = 104) then
             some (s.setCall i { c with pc := .failing, stat := code }) else none
-        | .panic => if c.wpanic then some (s.setCall i { c with pc := .written, nilRet := true }) else none
         | _ => none
     | none => none
   | .failDone i =>
@@ -248,14 +264,24 @@ def fire (s : State) (l : Label) : Option State :=
       match s.calls[i]? with
       | some c =>
         if c.mu ≠ .free then none else
-        let reb := s.rebound || c.hasReply || decide (1 ≤ c.doneCount)
-        let eff := if c.bytesRes then Dec.ok else dec
-        if (eff = .errNil ∨ eff = .panic) ∨ s.status.goon = false then
-          some ({ s with rebound := reb, leaked := true, rpc := .discLoad }.setCall i
-            { c with mu := .reader, hasReply := true, rstat := rstat })
+        if c.hasReply = true ∨ 1 ≤ c.doneCount then
+          -- already replied or completed (looked up before the table delete): Unlock, `callCmd = nil`,
+          -- nil body — from here on the frame is a reply for an unknown seq
+          some { s with rpc := .reading }.spawnOther
         else
-          some ({ s with rebound := reb, rpc := .reading }.setCall i
-            { c with mu := .hPre, hasReply := true, rstat := rstat })
+        let eff := effDec c dec
+        let c1 := { c with hasReply := true, rstat := rstat, rerr := eff.isErr }
+        if (eff = .errNil ∨ eff = .panic) ∨ s.status.goon = false then
+          -- the loop is left: `finishBoundReply` runs `handleReply` in the reader itself (status, done(),
+          -- Unlock). (A second `close(doneChan)` would panic inside `done()`, skip the Unlock and be
+          -- caught by the read loop's own recover: `mu := .reader`, ghost `leaked`.)
+          match complete { c1 with stat := if c.stat = 0 then c1.replyStat else c.stat } with
+          | some (c2, cr) =>
+            some ({ s with leaked := s.leaked || cr, rpc := .discLoad }.setCall i
+              { c2 with mu := if cr then .reader else .free })
+          | none => none
+        else
+          some ({ s with rpc := .reading }.setCall i { c1 with mu := .hPre })
       | none => none
     | _ => none
   | .readerEof =>
@@ -272,7 +298,11 @@ def fire (s : State) (l : Label) : Option State :=
     | _ => none
   | .discStore =>
     match s.rpc with
-    | .discStore => some { s with status := .passiveClosing, rpc := .discCtxWait false }
+    | .discStore =>
+      -- `tryChangeStatus(statusPassiveClosing, status)` from the loaded `Ok`; when it fails: load again
+      match s.status with
+      | .ok => some { s with status := .passiveClosing, rpc := .discCtxWait false }
+      | _ => some { s with rpc := .discLoad }
     | _ => none
   | .discCtxWait todo =>
     -- Range visits the table in map order: any list of indices (entries that are not in the table any
@@ -310,7 +340,7 @@ def fire (s : State) (l : Label) : Option State :=
     match s.calls[i]? with
     | some c =>
       if c.mu = .hPre then
-        match complete { c with stat := if c.stat = 0 then c.rstat else c.stat } with
+        match complete { c with stat := if c.stat = 0 then c.replyStat else c.stat } with
         | some (c', cr) => some ({ s with crashed := cr }.setCall i { c' with mu := .hPost })
         | none => none
       else none
@@ -347,12 +377,12 @@ def run (s : State) : List Label → Option State
 
 /-! ## deterministic scheduler used by the driver (and by the witnesses) -/
 
-/-- the outcome `session.write` has in the sequential scripts: refused / cancelled context / Pack panic /
+/-- the outcome `session.write` has in the sequential scripts: refused / cancelled context / size limit /
     a cut placed inside this write (`wcut`) / error on a lost connection / success. -/
 def canonWrite (s : State) (c : Call) (wcut : Bool) : WOut :=
   if s.status ≠ .ok then .refused
   else if c.ctxDone then .ctxErr
-  else if c.wpanic then .panic
+  else if c.tooBig then .tooBig
   else if wcut then .cut
   else if s.lost || s.sockClosed then .err 104
   else .ok
